@@ -330,6 +330,8 @@ def signature(spec, hist, compress, whole, what):
                 if m and m.group(1).count(",") != m.group(2).count(","):
                     kind = "key-count"          # steps lost or invented, not merely renumbered
             return "%s:%s:%s" % (mode, lg, kind)
+    if what.startswith("next-step"):
+        return "%s:next-step" % mode
     return "%s:other" % mode
 
 
